@@ -53,3 +53,86 @@ func ZZ_C18_setreadonly_witness() {
 	ZZ_C18_setreadonly()
 	vpAssert(false, "witness")
 }
+
+// C18-ro-quiet: once SetReadOnly has returned, no further compaction step
+// starts: a compaction transaction (what seek-, size- and range-triggered table
+// compactions and buffer flushes run their file-writing steps in) gives up
+// before executing its step.
+func ZZ_C18_setreadonly_quiet() {
+	db := zzLiveDB()
+	switch vpChoose(3) {
+	case 1:
+		db.compErrSetC <- errZZFault
+	case 2:
+		db.compErrSetC <- errZZFault
+		db.compErrSetC <- nil
+	}
+	vpAssert(db.SetReadOnly() == nil, "setreadonly-ok")
+	vpSettle() // "once in-flight background work has drained"
+	ran := 0
+	func() {
+		defer func() {
+			if x := recover(); x != nil {
+				vpAssert(x == errCompactionTransactExiting, "only-the-transaction-exit-unwinds")
+			}
+		}()
+		db.compactionTransactFunc("zz@compaction", func(cnt *compactionTransactCounter) error {
+			ran++ // stands for the step's file creation / manifest commit
+			return nil
+		}, nil)
+	}()
+	vpAssert(ran == 0, "no-compaction-step-starts-after-setreadonly")
+	vpAssert(db.Close() == nil, "close-returns-nil-after-setreadonly")
+	vpJoin()
+}
+
+// C18/C09: SetReadOnly racing with Close: both return, whatever the order.
+func ZZ_C18_setreadonly_close() {
+	db := zzLiveDB()
+	pre := vpChoose(3)
+	switch pre {
+	case 1:
+		db.compErrSetC <- errZZFault
+	case 2:
+		db.compErrSetC <- errZZFault
+		db.compErrSetC <- nil
+	}
+	var rerr, cerr error
+	nret := 0
+	go func() {
+		rerr = db.SetReadOnly()
+		nret++
+	}()
+	go func() {
+		cerr = db.Close()
+		nret++
+	}()
+	vpJoin()
+	vpAssert(nret == 2, "setreadonly-and-close-both-return")
+	vpAssert(rerr == nil || rerr == ErrClosed, "setreadonly-nil-or-closed")
+	// Close reports a compaction error that was pending when it was called
+	vpAssert(cerr == nil || (pre == 1 && cerr == errZZFault), "close-returns-nil-or-the-pending-error")
+}
+
+// C18/C09: Close with a transaction still open discards it and returns; the
+// storage becomes available again.
+func ZZ_C18_close_with_transaction() {
+	db := zzLiveDB()
+	stor := db.s.stor.Storage
+	tr, err := db.OpenTransaction()
+	vpAssert(err == nil && tr != nil, "open-ok")
+	if vpChoose(2) == 1 {
+		vpAssert(tr.Put([]byte{vpNondetU8()}, []byte{vpNondetU8()}, nil) == nil, "tr-put-ok")
+	}
+	_, lerr := stor.Lock()
+	vpAssert(lerr != nil, "storage-has-one-owner-while-open")
+	vpAssert(db.Close() == nil, "close-with-open-transaction-returns-nil")
+	vpAssert(tr.Put([]byte("k"), []byte("v"), nil) != nil, "transaction-is-finished-by-close")
+	vpAssert(tr.Commit() != nil, "commit-after-close-fails")
+	tr.Discard() // harmless
+	_, gerr := db.Get([]byte("k"), nil)
+	vpAssert(gerr == ErrClosed, "closed-after-close")
+	l2, lerr2 := stor.Lock()
+	vpAssert(lerr2 == nil && l2 != nil, "storage-available-again-after-close")
+	vpJoin()
+}
